@@ -626,9 +626,11 @@ class BaseWorklist(list):
         # transform destination wells into range + mask
         destination_wells = numpy.array(destination_wells).flatten("F")
         dst_wells = list(sorted([self._get_well_position(destination, w) for w in destination_wells]))
-        if len(set(dst_wells)) != len(dst_wells):
-            # the record dispenses once per position; several dispenses into one position cannot be expressed
-            raise ValueError(f"The destination wells must have distinct positions. They were {dst_wells}")
+        dst_real = [tuple(destination.indices[w]) for w in destination_wells]
+        if len(set(dst_real)) != len(dst_real):
+            # the record dispenses once per position; several dispenses into one well cannot be expressed
+            # on every device (the virtual rows of a trough column are one position on the Fluent)
+            raise ValueError(f"The destination wells must be distinct wells. They were {list(destination_wells)}")
         dst_start, dst_end = dst_wells[0], dst_wells[-1]
         excluded_dst_wells = set(range(dst_start, dst_end + 1)).difference(dst_wells)
 
